@@ -44,6 +44,7 @@ type c02Prog struct {
 	FragMode int    `json:"frag,omitempty"`
 	GW       int    `json:"gw,omitempty"`
 	Pick     int    `json:"pick,omitempty"` // seeded choice inside a defect class
+	TE       bool   `json:"te,omitempty"`   // the body travels with Transfer-Encoding: chunked instead of a Content-Length
 }
 
 type c02 struct{ baseCheck }
@@ -117,6 +118,11 @@ func (c02) Gen(seed uint64, run int, tier string) *core.Case {
 	}
 	if strings.HasPrefix(d, "presign") {
 		p.Mode = s3c.ModePresign
+	}
+	if en.r.Streams && p.Mode != s3c.ModePresign && r.IntN(3) == 0 {
+		// (not combined with a client-side cut: what is written to a connection the client has closed inside
+		// a chunk of the transfer coding is a transport matter, and no client sees it)
+		p.TE, p.Trunc = true, false
 	}
 	cfg := swarmCfg(r, 2)
 	cfg.Versioning = true
@@ -405,6 +411,9 @@ func c02Apply(e *env.Env, fx *routes.Fixture, rt *routes.Route, p *c02Prog) (sg 
 			return nil, nil, false
 		}
 	}
+	if p.TE && len(sg.Body) > 0 {
+		sg.TE = true
+	}
 	if p.Trunc && len(sg.Body) > 4 {
 		_, boff := sg.Wire()
 		co.CutAt = boff + len(sg.Body)/2
@@ -457,10 +466,20 @@ func (c02) Exec(c *core.Case) (out *core.Outcome) {
 	if p.Tail != "" {
 		name += "/tail=" + p.Tail
 	}
+	if p.TE && sg.TE {
+		name += "/te-chunked"
+	}
 	var viol []string
 	add := func(effect, format string, a ...any) {
 		viol = append(viol, effect)
-		o.Violate("unauthenticated-effect", fmt.Sprintf("C02/%s/%s/%s", name, c02DefectClass(p.Defect), effect),
+		sig := fmt.Sprintf("C02/%s/%s/%s", name, c02DefectClass(p.Defect), effect)
+		if effect == "status-5xx" && sg.TE && (p.Mode == s3c.ModeSigned || p.Mode == s3c.ModeUnsigned) {
+			// one root cause whatever the defect: an upload that is not aws-chunked and comes with
+			// Transfer-Encoding: chunked has no declared length; the backend refuses the first byte with an
+			// internal error before the request is authenticated (the undamaged request gets the same 500)
+			sig = fmt.Sprintf("C02/%s/plain-upload-without-length/status-5xx", name)
+		}
+		o.Violate("unauthenticated-effect", sig,
 			"%s %s with defect %q (mode %s, trunc=%v): "+format, append([]any{sg.Method, sg.Target, p.Defect, p.Mode, p.Trunc}, a...)...)
 	}
 	if len(e.Panics) > 0 {
@@ -508,7 +527,15 @@ func (c02) Exec(c *core.Case) (out *core.Outcome) {
 		}
 		cl := e.Root()
 		cl.GW = g
-		cr := cl.Do(rq)
+		var cr *env.Result
+		if p.TE && len(rq.Body) > 0 {
+			csg := cl.Sign(rq)
+			csg.TE = true
+			cr = e.RoundTrip(g, csg, nil)
+			o.Probe("control_sent_with_transfer_encoding_chunked")
+		} else {
+			cr = cl.Do(rq)
+		}
 		if cr.Resp.OK() {
 			o.Probe("control_succeeded")
 			o.AddClass("%s|%s|%s", name, p.Defect, p.Mode)
